@@ -593,6 +593,7 @@ func TestC13(t *testing.T) {
 	thorough := ev.Thorough()
 	c.Bound("delay_bound", map[bool]string{false: "1", true: "1 for all scenarios, 2 for the eight base scenarios"}[thorough])
 	c.Bound("threads", map[bool]string{false: "2", true: "2 (one scenario with 3)"}[thorough])
+	c13MixedPeers(t, c)
 	cases := c13Scenarios(thorough)
 	for i, k := range cases {
 		if !ev.Mine(i) {
@@ -602,5 +603,102 @@ func TestC13(t *testing.T) {
 			break
 		}
 		c13Explore(t, c, k)
+	}
+}
+
+// c13MixedPeers: peers with different compression habits use one shared
+// handler one after the other (every ordered pair over the menu, then the
+// first again): what each of them gets must be what it gets from a fresh
+// handler of its own.
+func c13MixedPeers(t *testing.T, c *ev.Collector) {
+	type peer struct{ enc, accept string }
+	menu := []peer{{"", "gzip"}, {"gzip", ""}, {"gzip", "gzip"}, {"", ""}, {"", "identity"}, {"identity", "gzip"}}
+	serve := func(h http.Handler, p Proto, kind Kind, pe peer, tag byte) string {
+		payload := codecMarshal(false, &BV{Value: Payload(60, tag)})
+		var body []byte
+		if pe.enc == "gzip" {
+			z := Gzip(payload)
+			if p == PConnect && kind == KUnary {
+				body = z
+			} else {
+				body = refwire.Envelope(1, z)
+			}
+		} else if p == PConnect && kind == KUnary {
+			body = payload
+		} else {
+			body = refwire.Envelope(0, payload)
+		}
+		req := RawRequest(context.Background(), p, kind, false, bytes.NewReader(body))
+		encH, accH := encHeaders(p, kind)
+		if pe.enc != "" {
+			req.Header.Set(encH, pe.enc)
+		}
+		if pe.accept != "" {
+			req.Header.Set(accH, pe.accept)
+		}
+		rec := httptest.NewRecorder()
+		g := Guarded(func() { h.ServeHTTP(rec, req) })
+		if g.Hung || g.Panicked {
+			return fmt.Sprintf("hung=%v panic=%v", g.Hung, g.Panic)
+		}
+		status, header, rbody, trailer := recParts(rec)
+		rs := refwire.DecodeResponse(wireProto(p), kind == KUnary, req.Header.Get("Content-Type"), status, header, rbody, trailer, AnyDecompress)
+		var msgs []string
+		for _, m := range rs.Msgs {
+			msgs = append(msgs, fmt.Sprintf("%x", m))
+		}
+		return fmt.Sprintf("status=%d enc=%q code=%d msg=%q msgs=%v problems=%v", status, header.Get(encH), rs.End.Code, rs.End.Message, msgs, rs.Problems)
+	}
+	mk := func(kind Kind) http.Handler {
+		return NewHandler(kind, func(ctx context.Context, s HStream) error {
+			var got []byte
+			for {
+				m, err := s.Receive()
+				if err != nil {
+					break
+				}
+				got = append(got, m.Value...)
+			}
+			return s.Send(&BV{Value: append([]byte{'r'}, got...)})
+		})
+	}
+	idx := 0
+	for _, p := range AllProtos {
+		for _, kind := range []Kind{KUnary, KServer, KClient} {
+			for i, first := range menu {
+				for j, second := range menu {
+					idx++
+					if !ev.Mine(idx) {
+						continue
+					}
+					key := fmt.Sprintf("mixed-peers/%s/%s/%d-then-%d", p, kind, i, j)
+					c.Case(key, true)
+					Bubble(t, func() {
+						soloFirst := serve(mk(kind), p, kind, first, 'A')
+						soloSecond := serve(mk(kind), p, kind, second, 'B')
+						shared := mk(kind)
+						got1 := serve(shared, p, kind, first, 'A')
+						got2 := serve(shared, p, kind, second, 'B')
+						got3 := serve(shared, p, kind, first, 'A')
+						c.AddTransitions(5)
+						c.AddStates(5)
+						c.AddTraces(5)
+						tags := []string{"proto=" + p.String(), "kind=" + kind.String(), "scenario=mixed-peers"}
+						bad := false
+						for n, pair := range [][2]string{{got1, soloFirst}, {got2, soloSecond}, {got3, soloFirst}} {
+							if pair[0] != pair[1] {
+								bad = true
+								c.Violation("TestC13", "same-as-solo", "differs", tags, key, "%s: request #%d through the shared handler (peers: first enc=%q accept=%q, second enc=%q accept=%q) observed\\n    %s\\n  from a handler of its own it observes\\n    %s", key, n+1, first.enc, first.accept, second.enc, second.accept, pair[0], pair[1])
+							}
+						}
+						if bad {
+							c.Outcome("violation")
+						} else {
+							c.Outcome("ok")
+						}
+					})
+				}
+			}
+		}
 	}
 }
